@@ -130,7 +130,17 @@ func (ex *Exec) verifyFunction(fn *ssa.Function, con *Contract) (rep *FuncReport
 				ex.obls = ex.obls[:start]
 				return
 			}
-			panic(r)
+			if os.Getenv("GOVC_PANIC") != "" {
+				panic(r)
+			}
+			// an internal error of the verifier on this function must not take the whole run
+			// down: the function is reported as not verifiable (an `#engine` failure), the others
+			// are still decided
+			rep.Error = fmt.Sprintf("internal error of the verifier: %v", r)
+			ex.obls = ex.obls[:start]
+			ex.spec = 0
+			ex.part = 0
+			return
 		}
 		for _, o := range ex.obls[start:] {
 			rep.Obligations = append(rep.Obligations, o.Name)
@@ -493,7 +503,6 @@ func underPred(p *Term, pred func(*Term) *Term, depth int) *Term {
 	return Or(r, And(isFld, underPred(fb, pred, depth-1)), And(isElt, underPred(eb, pred, depth-1)))
 }
 
-
 // verifyLemma proves a package-level lemma (closed specification formula).
 func (ex *Exec) verifyLemma(cl *Clause, pkgPath string) (rep *FuncReport) {
 	resetClosureIDs()
@@ -528,7 +537,6 @@ func (ex *Exec) verifyLemma(cl *Clause, pkgPath string) (rep *FuncReport) {
 	return rep
 }
 
-
 // assumeGlobalInv re-assumes the invariants of a package-level variable at a load of it (the
 // variable is never assigned after initialisation: checked by the `global` obligation).
 func (ex *Exec) assumeGlobalInv(fr *Frame, st *State, g *ssa.Global) {
@@ -545,7 +553,6 @@ func (ex *Exec) assumeGlobalInv(fr *Frame, st *State, g *ssa.Global) {
 		ex.fact(st, env.evalBool(gi.Clause.Text))
 	}
 }
-
 
 // nodeTextOf renders a specification expression back to compact text (callee names of assume_pure).
 func (pr *Program) nodeTextOf(n ast.Node) string {
